@@ -181,8 +181,13 @@ func (c *Ctx) verifyWhatWasSigned() {
 	const R = "E15.verify-what-was-signed"
 	if f := c.mustFn(R, "wallet", "SignedMsgBody.Verify"); f != nil {
 		okv := false
-		for _, cl := range callsTo(f, "crypto/ed25519.Verify") {
-			a := []string{strings.Join(leaves(cl.Call.Args[0]), ","), strings.Join(leaves(cl.Call.Args[1]), ","), strings.Join(leaves(cl.Call.Args[2]), ",")}
+		// (read with unexported helpers inlined: the hash-and-verify step may be shared with the v5 verifier)
+		for _, vi := range c.inlineView(f, 2, nil) {
+			cl, isCall := vi.in.(*ssa.Call)
+			if !isCall || callQName(&cl.Call) != "crypto/ed25519.Verify" {
+				continue
+			}
+			a := []string{strings.Join(leavesCx(cl.Call.Args[0], vi.cx), ","), strings.Join(leavesCx(cl.Call.Args[1], vi.cx), ","), strings.Join(leavesCx(cl.Call.Args[2], vi.cx), ",")}
 			okv = a[0] == "#1" && a[1] == "#0.Message" && a[2] == "#0.Sign" && derivesFrom(cl.Call.Args[1], callResult(modPath+"/boc.Cell.Hash"), false)
 			if !okv {
 				c.bad(R, "SignedMsgBody.Verify(publicKey, Hash(body.Message), body.Sign)", cl.Pos(), fmt.Sprintf("SignedMsgBody.Verify calls ed25519.Verify with arguments from %v", a))
@@ -207,10 +212,15 @@ func (c *Ctx) verifyWhatWasSigned() {
 		}
 		c.check(okBits && okSig, R, "v5 verify: signed part = all bits but the last 512, signature = last 64 bytes", f.Pos(), "ReadBits(total-512) then ReadBytes(64)", fmt.Sprintf("MessageV5VerifySignature no longer splits the body as (total-512 bits | 64 signature bytes): bits %v signature %v", okBits, okSig))
 		okV := false
-		for _, cl := range callsTo(f, "crypto/ed25519.Verify") {
+		v5view := c.inlineView(f, 2, nil)
+		for _, vi := range v5view {
+			cl, isCall := vi.in.(*ssa.Call)
+			if !isCall || callQName(&cl.Call) != "crypto/ed25519.Verify" {
+				continue
+			}
 			okH := derivesFrom(cl.Call.Args[1], callResult(modPath+"/boc.Cell.Hash"), false)
 			okS := derivesFrom(cl.Call.Args[2], callResult(modPath+"/boc.Cell.ReadBytes"), false)
-			okK := strings.Join(leaves(cl.Call.Args[0]), ",") == "#1"
+			okK := strings.Join(leavesCx(cl.Call.Args[0], vi.cx), ",") == "#1"
 			okV = okH && okS && okK
 		}
 		// the hashed copy gets the unsigned bits and every ref
@@ -225,8 +235,11 @@ func (c *Ctx) verifyWhatWasSigned() {
 			okRefs = cl.Call.Args[0] == cp && derivesFrom(cl.Call.Args[1], callResult(modPath+"/boc.Cell.NextRef"), false)
 		}
 		okHashCopy := false
-		for _, cl := range callsTo(f, modPath+"/boc.Cell.Hash") {
-			okHashCopy = cl.Call.Args[0] == cp
+		for _, vi := range v5view {
+			if cl, isCall := vi.in.(*ssa.Call); isCall && callQName(&cl.Call) == modPath+"/boc.Cell.Hash" {
+				recv, _ := resolveDeep(cl.Call.Args[0], vi.cx)
+				okHashCopy = recv == cp
+			}
 		}
 		// loop bound is RefsSize of the body
 		okLoop := false
@@ -236,10 +249,15 @@ func (c *Ctx) verifyWhatWasSigned() {
 		c.check(okV && okCopy && okRefs && okHashCopy && okLoop, R, "v5 verify: hash(copy of unsigned bits + all refs) checked against the signature with the given key", f.Pos(), "Verify(publicKey, Hash(copy), signature)", fmt.Sprintf("MessageV5VerifySignature: verify args %v, copy gets the unsigned bits %v, all refs %v (loop over RefsSize %v), the copy is what is hashed %v", okV, okCopy, okRefs, okLoop, okHashCopy))
 	}
 	if f := c.mustFn(R, "wallet", "extractSignedMsgBody"); f != nil {
-		ms := callsTo(f, modPath+"/tlb.Unmarshal")
+		var ms []vinstr
+		for _, vi := range c.inlineView(f, 2, nil) {
+			if cl, isCall := vi.in.(*ssa.Call); isCall && callQName(&cl.Call) == modPath+"/tlb.Unmarshal" {
+				ms = append(ms, vi)
+			}
+		}
 		okv := len(ms) == 2
 		if okv {
-			okv = strings.Join(leaves(ms[0].Call.Args[0]), ",") == "#0" && derivesFrom(ms[1].Call.Args[0], func(v ssa.Value) bool { _, n, ok := fieldOf(v); return ok && n == "Body" }, false)
+			okv = strings.Join(leavesCx(ms[0].in.(*ssa.Call).Call.Args[0], ms[0].cx), ",") == "#0" && derivesFrom(ms[1].in.(*ssa.Call).Call.Args[0], func(v ssa.Value) bool { _, n, ok := fieldOf(v); return ok && n == "Body" }, false)
 		}
 		c.check(okv, R, "the signed body is decoded from the external message's body", f.Pos(), "Unmarshal(msg, &m); Unmarshal(m.Body.Value, &signedBody)", "extractSignedMsgBody no longer decodes the SignedMsgBody from the message body")
 	}
@@ -535,7 +553,14 @@ func (c *Ctx) walletDecodeTables() {
 	}
 	// each decoder decodes the type its wallet encodes
 	for dec, typ := range map[string]string{"decodeMessageV3": "MessageV3", "decodeMessageV4": "MessageV4", "decodeHighloadV2Message": "HighloadV2Message", "DecodeMessageV5": "MessageV5", "DecodeMessageV5Beta": "MessageV5Beta"} {
-		f := c.mustFn(R, "wallet", dec)
+		f := c.fn("wallet", dec)
+		if f == nil && dec[0] == 'd' {
+			// the unexported worker inlined into the exported decoder of the same name
+			f = c.fn("wallet", "D"+dec[1:])
+		}
+		if f == nil {
+			f = c.mustFn(R, "wallet", dec)
+		}
 		if f == nil {
 			continue
 		}
@@ -549,6 +574,10 @@ func (c *Ctx) walletDecodeTables() {
 	}
 	for dec, inner := range map[string]string{"DecodeMessageV3": "decodeMessageV3", "DecodeMessageV4": "decodeMessageV4", "DecodeHighloadV2Message": "decodeHighloadV2Message"} {
 		if f := c.mustFn(R, "wallet", dec); f != nil {
+			if c.fn("wallet", inner) == nil {
+				c.ok(R, fnName(f)+" delegates success to wallet."+inner, f.Pos(), "no separate worker: the exported decoder decodes the type itself (checked above)")
+				continue
+			}
 			c.delegatesTo(R, f, 1, []string{modPath + "/wallet." + inner})
 		}
 	}
